@@ -143,6 +143,93 @@ pub fn check_blocks(ctx: &Ctx, tape: &[u8], cfg: &Cfg, stats: &mut Stats) -> Res
     Ok(())
 }
 
+/// Parameters whose annotations refer to type definitions of the same block.  All parameters have type Int64
+/// (directly or through a block-local alias), so any argument order type checks; the arguments are distinct
+/// and every parameter is printed, so the output shows which argument each parameter received.  Oracle
+/// (metamorphic): every placement of the alias definitions and the other definitions, the parameters keeping
+/// their relative order, prints the same lines.
+pub fn check_alias_params(ctx: &Ctx, tape: &[u8], stats: &mut Stats) -> Result<(), Fail> {
+    let mut t = Tape::new(tape);
+    let np = 2 + t.below(3);
+    let mut contributions: Vec<(bool, String)> = vec![]; // (is_param, text)
+    for i in 0..np {
+        match t.below(3) {
+            | 0 => contributions.push((true, format!("param ( p{i} : Int64 ) that"))),
+            | 1 => {
+                contributions.push((false, format!("let Zt{i} : VType = Int64 that")));
+                contributions.push((true, format!("param ( p{i} : Zt{i} ) that")));
+            }
+            | _ => {
+                // an alias of an alias: two layers below the parameter
+                contributions.push((false, format!("let Zu{i} : VType = Int64 that")));
+                contributions.push((false, format!("let Zt{i} : VType = Zu{i} that")));
+                contributions.push((true, format!("param ( p{i} : Zt{i} ) that")));
+            }
+        }
+    }
+    let nl = t.below(3);
+    for k in 0..nl {
+        let src = t.below(np);
+        contributions.push((false, format!("let q{k} : Int64 = p{src} that")));
+    }
+    let mut body = String::from("! ( process / exit ) 0");
+    for k in (0..nl).rev() {
+        body = format!("do sq{k} <- ! ( int64 / to_string ) q{k} ; ! ( stdio / write_line ) sq{k} {{ {body} }}");
+    }
+    for i in (0..np).rev() {
+        body = format!("do sp{i} <- ! ( int64 / to_string ) p{i} ; ! ( stdio / write_line ) sp{i} {{ {body} }}");
+    }
+    let arrows = "Int64 -> ".repeat(np);
+    let args: String = (0..np).map(|i| format!(" {}", 11 * (i + 1))).collect();
+    let n = contributions.len();
+    let param_slots: Vec<usize> = (0..n).filter(|i| contributions[*i].0).collect();
+    let limit = ctx.tier.pick(10, 40);
+    let mut first: Option<(String, Vec<u8>, String)> = None;
+    for mut perm in permutations(n, &mut t, limit) {
+        // parameters keep their relative order
+        let slots: Vec<usize> = perm.iter().enumerate().filter(|(_, i)| contributions[**i].0).map(|(pos, _)| pos).collect();
+        for (pos, i) in slots.iter().zip(param_slots.iter()) {
+            perm[*pos] = *i;
+        }
+        let inner: String = perm.iter().map(|i| format!("  {}\n", contributions[*i].1)).collect();
+        let text = format!("{}( ( begin\n{inner}  ( {body} : OS )\nend : {arrows}OS ){args} : OS )\n", print::prelude(&ctx.repo_root));
+        stats.eval();
+        let (_s, analyzed) = h::write_and_analyze(&thread_dir(ctx), &text);
+        let shown = text[text.find("( ( begin").unwrap_or(0)..].to_string();
+        let observed = match analyzed {
+            | Analyzed::Panic(p) => return Err(Fail::new(format!("analysis-{}", p.signature()), "analysis to return", p.describe()).with(json!({"source": shown}))),
+            | Analyzed::Executable(exe, _) => {
+                let run = h::interp_run(exe, b"", 500_000);
+                (true, run.stdout, format!("{:?}", run.end))
+            }
+            | Analyzed::NotAccepted(front) => (false, vec![], format!("rejected: {:?}", front.kinds.iter().take(2).collect::<Vec<_>>())),
+            | Analyzed::AcceptedOther(_, why) => (false, vec![], why),
+        };
+        match &first {
+            | None => {
+                if !observed.0 {
+                    return Err(Fail::new("alias-parameter-block-rejected", "accepted: every argument order type checks (all parameters are Int64)", observed.2).with(json!({"source": shown})));
+                }
+                first = Some((shown, observed.1, observed.2));
+            }
+            | Some((base_text, base_out, base_end)) => {
+                if !observed.0 || &observed.1 != base_out || &observed.2 != base_end {
+                    return Err(Fail::new(
+                        "placement-of-a-definition-changes-the-block",
+                        format!("as in the first placement: {base_end} stdout={:?}", String::from_utf8_lossy(base_out)),
+                        format!("{} stdout={:?}", observed.2, String::from_utf8_lossy(&observed.1)),
+                    )
+                    .with(json!({"first_placement": base_text, "this_placement": shown})));
+                }
+                stats.nontrivial(hash_of(&shown));
+                stats.sample(|| json!({"source": shown}));
+            }
+        }
+    }
+    stats.count("alias-parameter-blocks");
+    Ok(())
+}
+
 /// (body, expectation): type-only cycles are accepted; cycles through values or parameters are rejected
 /// with a diagnostic (never a hang or crash).
 const CYCLES: &[(&str, bool, &str)] = &[
@@ -207,11 +294,18 @@ pub fn run_blocks(ctx: &Ctx, report: &mut Report) {
     let cases = ctx.tier.pick(300, 10_000);
     let r = run_tapes(ctx, "block-permutations", cases, 700, |tape, stats| check_blocks(ctx, tape, &cfg, stats));
     report.absorb(r);
+    let cases = ctx.tier.pick(150, 5_000);
+    let r = run_tapes(ctx, "alias-parameter-blocks", cases, 40, |tape, stats| check_alias_params(ctx, tape, stats));
+    report.absorb(r);
     run_cycles(ctx, report);
 }
 
 pub fn replay(ctx: &Ctx, doc: &Value) -> Result<(), Fail> {
     let mut stats = Stats::new();
+    if doc["stage"] == "alias-parameter-blocks" {
+        let tape = unhex(doc["tape_hex"].as_str().unwrap_or(""));
+        return check_alias_params(ctx, &tape, &mut stats);
+    }
     if doc["stage"] == "block-permutations" {
         let tape = unhex(doc["tape_hex"].as_str().unwrap_or(""));
         check_blocks(ctx, &tape, &Cfg::quick(), &mut stats)?;
